@@ -93,6 +93,18 @@ func encFloat(c int) float64 {
 	return float64(c) + 0.5
 }
 
+// encFloat32 (round 5): ±Inf, the ends of the float32 range, values that differ in the last bit, the
+// float32 nearest to 0.1; no NaN and no -0, as for float64.
+var float32Extremes = []float32{0, float32(math.Inf(1)), float32(math.Inf(-1)), math.MaxFloat32, math.SmallestNonzeroFloat32, 1 << 24, 1<<24 + 2, -1,
+	-math.MaxFloat32, -math.SmallestNonzeroFloat32, 0.1, 0.3, math.Nextafter32(0.3, 1), 1e-40, 16777215, -(1 << 24)}
+
+func encFloat32(c int) float32 {
+	if c >= 0 && c < len(float32Extremes) {
+		return float32Extremes[c]
+	}
+	return float32(c) + 0.5 // exact and distinct below 2^23 (the poison code included)
+}
+
 // the 32-bit hash collisions of ROUND4_GUIDE.md class 3, as the strings of codes 1..14 (so that
 // every set of three or more strings holds a colliding pair next to each other, and the pairs
 // {1,3} / {2,4} hold one of each pair at the same place): FNV-1a-32, then Java's 31-polynomial.
